@@ -1,14 +1,19 @@
 package prometheus
 
 import (
+	"context"
 	"math"
+	"strings"
 	"time"
 
 	"github.com/prometheus/client_golang/prometheus"
 	dto "github.com/prometheus/client_model/go"
 
 	"go.opentelemetry.io/otel/attribute"
+	"go.opentelemetry.io/otel/metric"
+	sdkmetric "go.opentelemetry.io/otel/sdk/metric"
 	"go.opentelemetry.io/otel/sdk/metric/metricdata"
+	"go.opentelemetry.io/otel/sdk/resource"
 )
 
 // ---- models of the client_golang constructors (engine only: the native replay
@@ -191,3 +196,122 @@ func HarnessC18Values() {
 		}
 	}
 }
+
+// ---- C18.collect: the collector end to end over a real MeterProvider and the
+// exporter's own ManualReader: target_info and otel_scope_info present as
+// configured (also after a scrape that came before the exporter was registered
+// with a provider), the counter series carries the scope labels and the value
+type c18Registerer struct{ c prometheus.Collector }
+
+func (r *c18Registerer) Register(c prometheus.Collector) error  { r.c = c; return nil }
+func (r *c18Registerer) MustRegister(...prometheus.Collector)   {}
+func (r *c18Registerer) Unregister(prometheus.Collector) bool   { return true }
+
+func c18MetricName(m prometheus.Metric) string {
+	if vndSymbolic() {
+		return c18Descs[m.Desc()].name
+	}
+	s := m.Desc().String() // Desc{fqName: "x", help: ...
+	const pre = "fqName: \""
+	i := strings.Index(s, pre)
+	if i < 0 {
+		return ""
+	}
+	s = s[i+len(pre):]
+	return s[:strings.IndexByte(s, '"')]
+}
+
+func c18Scrape(c prometheus.Collector) map[string][]*dto.Metric {
+	ch := make(chan prometheus.Metric, 16)
+	c.Collect(ch)
+	close(ch)
+	out := map[string][]*dto.Metric{}
+	for m := range ch {
+		var o dto.Metric
+		vndAssert(m.Write(&o) == nil, "series-is-well-formed")
+		n := c18MetricName(m)
+		out[n] = append(out[n], &o)
+	}
+	return out
+}
+
+func HarnessC18Collect() {
+	c18Scheme(false)
+	noTarget, noScope := vndChoice(2) == 1, vndChoice(2) == 1
+	early := vndChoice(2) == 1
+	opts := []Option{}
+	reg := &c18Registerer{}
+	opts = append(opts, WithRegisterer(reg))
+	if noTarget {
+		opts = append(opts, WithoutTargetInfo())
+	}
+	if noScope {
+		opts = append(opts, WithoutScopeInfo())
+	}
+	exp, err := New(opts...)
+	vndAssert(err == nil && reg.c != nil, "exporter-created")
+	if early {
+		// a scrape before the exporter is registered with a provider: whatever it
+		// exposes, it must not crash or spoil the later scrapes
+		c18Scrape(reg.c)
+	}
+	res := resource.NewSchemaless(attribute.String("service.name", "svc"))
+	mp := sdkmetric.NewMeterProvider(sdkmetric.WithReader(exp), sdkmetric.WithResource(res))
+	ctr, err := mp.Meter("sc", metric.WithInstrumentationVersion("v1")).Int64Counter("hits")
+	vndAssert(err == nil, "instrument-created")
+	v := int64(vndInt(0, 1000))
+	ctr.Add(context.Background(), v, metric.WithAttributes(attribute.String("a", "1")))
+	for round := 0; round < 2; round++ {
+		got := c18Scrape(reg.c)
+		vndReach("scraped")
+		ti := got["target_info"]
+		if noTarget {
+			vndAssert(len(ti) == 0, "target-info-absent-when-disabled")
+		} else {
+			vndAssert(len(ti) == 1, "target-info-present-as-configured")
+			if len(ti) == 1 {
+				l := c18Labels(ti[0])
+				vndAssert(len(l) == 1 && l["service.name"] == "svc", "target-info-carries-the-resource-attributes")
+				vndAssert(ti[0].Gauge != nil && ti[0].Gauge.GetValue() == 1, "target-info-is-a-gauge-of-one")
+			}
+		}
+		si := got["otel_scope_info"]
+		if noScope {
+			vndAssert(len(si) == 0, "scope-info-absent-when-disabled")
+		} else {
+			vndAssert(len(si) == 1, "scope-info-present-as-configured")
+			if len(si) == 1 {
+				l := c18Labels(si[0])
+				vndAssert(l["otel_scope_name"] == "sc" && l["otel_scope_version"] == "v1", "scope-info-carries-the-scope")
+			}
+		}
+		hs := got["hits_total"]
+		vndAssert(len(hs) == 1, "one-series-per-data-point")
+		if len(hs) == 1 {
+			l := c18Labels(hs[0])
+			vndAssert(l["a"] == "1", "labels-are-the-attributes-plus-scope-labels")
+			if noScope {
+				vndAssert(len(l) == 1, "labels-are-the-attributes-plus-scope-labels")
+			} else {
+				vndAssert(len(l) == 3 && l["otel_scope_name"] == "sc" && l["otel_scope_version"] == "v1", "labels-are-the-attributes-plus-scope-labels")
+			}
+			vndAssert(hs[0].Counter != nil && hs[0].Counter.GetValue() == float64(v), "exposed-value-equals-the-aggregated-value")
+		}
+		n := 0
+		for _, ms := range got {
+			n += len(ms)
+		}
+		want := 1
+		if !noTarget {
+			want++
+		}
+		if !noScope {
+			want++
+		}
+		vndAssert(n == want, "nothing-else-is-exposed")
+	}
+}
+
+// resource.Default (process / host detection through system calls) is replaced
+// by the empty resource inside the engine
+func c18EmptyResource() *resource.Resource { return resource.Empty() }
